@@ -98,6 +98,11 @@ func (self *Interpreter) letStatement(node ast.AnalyzedLetStatement) *value.Inte
 func (self *Interpreter) loopStatement(node ast.AnalyzedLoopStatement) *value.Interrupt {
 loop:
 	for {
+		// An empty body contains no statement or expression that would poll the context
+		if i := self.checkCancelation(node.Span()); i != nil {
+			return i
+		}
+
 		_, i := self.block(node.Body, true)
 		if i != nil {
 			switch (*i).Kind() {
@@ -172,6 +177,11 @@ func (self *Interpreter) forStatement(node ast.AnalyzedForStatement) *value.Inte
 
 loop:
 	for {
+		// An empty body contains no statement or expression that would poll the context
+		if i := self.checkCancelation(node.Span()); i != nil {
+			return i
+		}
+
 		// loop control
 		currIterVar, shouldContinue := iterator()
 		if !shouldContinue {
